@@ -61,6 +61,7 @@ def handleLine (line : String) : String :=
     | "c12t" => C12.handleTokens args obs
     | "c12" => C12.handleLimit args obs
     | "c12e" => C12.handleEmfile args obs
+    | "c12b" => C12.handleTokensBig args obs
     | "c13" => C12.handleShutdown args obs
     | "c13e" => C12.handleShutdownEmfile args obs
     | "c08s" => C12.handleStall args obs
